@@ -190,6 +190,24 @@ def build_traces(path, tier, seed):
         add({"kind": "object", "dt": enc(dt), "xi": enc(xi), "a": enc_seq(a), "periods": enc_seq(periods), "raised": False, "q": q_,
              "sd": enc_seq(o.s_d), "sv": enc_seq(o.s_v), "sa": enc_seq(o.s_a)},
             {"kind": "object", "n": n, "dt": dt, "xi": xi, "min_dt_ratio": q_, "T_over_dt": [p / dt for p in periods], "shape": "resonant build-up, odd length (deterministic)"})
+    # a USED object: spectra were already read (lazily: min_dt_ratio 4, default damping); then the generator is called with
+    # another min_dt_ratio and nothing else -- the step rule of THAT call applies to what is reported afterwards
+    for j, (ratio_, q_) in enumerate([(4.5, 8), (3.1, 8), (7.0, 8), (4.5, 8), (9.0, 1), (8.0, 2)]):
+        n = [41, 64, 25, 100, 33, 75][j]
+        dt = [0.01, 0.02, 0.005][j % 3]
+        t_ = np.arange(n)
+        a = np.sin(2 * np.pi * t_ / ratio_ + 0.3) * (1.0 + 0.01 * t_) + 0.2 * rng.standard_normal(n)
+        periods = [ratio_ * dt, 3.7 * ratio_ * dt]
+        o = eqsig.AccSignal(a, dt, response_times=np.array(periods))
+        _ = (o.s_a, o.s_d) if j % 2 else o.s_v
+        if j % 3 == 2:
+            o.generate_response_spectrum(min_dt_ratio=q_)
+        else:
+            o.gen_response_spectrum(min_dt_ratio=q_)
+        add({"kind": "object", "dt": enc(dt), "xi": enc(0.05), "a": enc_seq(a), "periods": enc_seq(periods), "raised": False, "q": q_,
+             "sd": enc_seq(o.s_d), "sv": enc_seq(o.s_v), "sa": enc_seq(o.s_a)},
+            {"kind": "object", "n": n, "dt": dt, "xi": 0.05, "min_dt_ratio": q_, "T_over_dt": [p / dt for p in periods],
+             "shape": "used object: spectra read lazily, then the generator called with min_dt_ratio only"})
     # the two inputs named in known_findings.json (C03-input-energy-negative) are always exercised
     for (n, a0, a1, ratio, xi, dt) in [(10, 0.9, 0.3, 1.06, 0.05, 0.01), (14, 0.8, 0.2, 1.05, 0.3, 0.01), (205, 0.967, 0.678, 0.35, 0.554, 0.005)]:
         a = np.linspace(a0, a1, n)
